@@ -73,9 +73,12 @@ def gen_letter(rng, dim, kinds=None):
     if k == "reflection":
         return {"kind": k, "d": L.encV(L.spacelike_vec(rng, dim))}
     if k == "reflectionD":
-        g = L.random_rational_isometry(rng, dim, 2)
-        D = L.mul(std_hyperplane_rows(dim), g)
-        D = [[x * sc for x in r] for r, sc in zip(D, [Q.rq(rng, 6, 3, nonzero=True) for _ in D])]
+        while True:      # bounded condition number: invert(dual_data) is only as accurate as cond(D) allows
+            g = L.random_rational_isometry(rng, dim, 2)
+            D = L.mul(std_hyperplane_rows(dim), g)
+            D = [[x * sc for x in r] for r, sc in zip(D, [Q.rq(rng, 6, 3, nonzero=True) for _ in D])]
+            if np.linalg.cond(L.fl(D)) <= 1e3:
+                break
         return {"kind": k, "D": L.encM(D)}
     raise ValueError(k)
 
@@ -202,6 +205,15 @@ def gen_word(maxlen):
     return g
 
 
+def word_amp(inp, mats):
+    """product over the letters of max(1, max|L|) (squared for inverted letters), times the matrix size"""
+    amp = 1.0
+    for w in inp["word"]:
+        c = max(1.0, float(np.max(np.abs(mats[w["l"]]))))
+        amp *= (c * c if w["inv"] else c) * (inp["dim"] + 1)
+    return amp
+
+
 def run_word(inp):
     dim = inp["dim"]
     pool = [build_letter(l, dim) for l in inp["pool"]]
@@ -253,8 +265,12 @@ def judge_word(inp, obs, lr):
     scale = 1 + float(np.max(np.abs(mv)))
     if obs["cls"] != "Isometry":
         return {"expected": "Isometry", "observed": obs["cls"], "tags": dict(tags, cls=True)}
-    if not (finite(iv) and iv.shape == mv.shape and np.max(np.abs(iv - mv)) <= 1e-9 * scale * max(1, len(inp["word"]))):
-        return {"expected": mv.tolist(), "observed": iv.tolist(), "tags": tags}
+    # forward error of a product of floats grows with the product of the factor norms (squared for LAPACK inverses),
+    # not with the norm of the result
+    amp = word_amp(inp, [np.array(p) for p in obs["pool"]])
+    tol = 1e-9 * scale * max(1, len(inp["word"])) + 1e-13 * amp
+    if not (finite(iv) and iv.shape == mv.shape and np.max(np.abs(iv - mv)) <= tol):
+        return {"expected": mv.tolist(), "observed": iv.tolist(), "tags": dict(tags, tol=tol)}
     return None
 
 
@@ -551,6 +567,7 @@ def run_oracle(inp):
     M = np.asarray(acc.matrix, dtype=float)
     out["res"] = fres(M)
     out["norm"] = float(np.max(np.abs(M)))
+    out["amp"] = word_amp(inp, [np.asarray(p.matrix, dtype=float) for p in pool])
     out["cls"] = type(acc).__name__
     ps = tuple(inp["pshape"])
     P = H.Point(np.array(inp["interior"]).reshape(ps + (dim,)), model="klein")
@@ -568,7 +585,7 @@ def run_oracle(inp):
     out["before"] = {"interior": rel(P.proj_data), "ideal": rel(I.proj_data), "exterior": rel(E.proj_data)}
     out["after"] = {"interior": rel((acc @ P).proj_data), "ideal": rel((acc @ I).proj_data), "exterior": rel((acc @ E).proj_data)}
     out["imgcls"] = type(acc @ P).__name__
-    if out["norm"] <= 20:
+    if out["amp"] <= 1e3:
         out["pred"] = {"interior": bool(np.all(H.timelike((acc @ P).proj_data))),
                        "ideal": bool(np.all(H.lightlike(np.asarray((acc @ I).proj_data) / np.max(np.abs((acc @ I).proj_data), axis=-1, keepdims=True)))),
                        "exterior": bool(np.all(H.spacelike((acc @ E).proj_data)))}
@@ -583,24 +600,26 @@ def judge_oracle(inp, obs, lr):
         if not (l["res"] <= 1e-9):
             return {"expected": "constructor output preserves the form: max|MJMᵀ−J|/max(1,|M|²) ≤ 1e-9", "observed": l,
                     "tags": {"ctor": l["kind"], "dim": inp["dim"], "residual": True}}
-    if not (obs["res"] <= 1e-9 * len(inp["word"])):
+    # float error of the product is governed by the product of the factor norms (amp), not by the norm of the result
+    amp = max(obs["amp"], max(1.0, obs["norm"]) ** 2)
+    if not (obs["res"] <= 1e-9 * len(inp["word"]) + 1e-13 * amp):
         return {"expected": "word of isometries/inverses preserves the form", "observed": obs["res"], "tags": dict(tags, word=True)}
     if obs["cls"] != "Isometry" or obs["imgcls"] != "Point":
         return {"expected": "Isometry / Point", "observed": [obs["cls"], obs["imgcls"]], "tags": dict(tags, cls=True)}
-    n2 = max(1.0, obs["norm"]) ** 2
+    n2 = amp
     for a, b in zip(obs["d0"], obs["d1"]):
-        tol = 1e-7 * n2 * max(1.0, math.cosh(a)) / max(math.sinh(a), 1e-3)
+        tol = 1e-9 * n2 * max(1.0, math.cosh(a)) / max(math.sinh(a), 1e-3)
         if not (math.isfinite(b) and abs(a - b) <= tol + 1e-7):
             return {"expected": f"distance {a} unchanged (tol {tol})", "observed": b, "tags": dict(tags, distance=True)}
-    tol = 1e-9 * n2
+    tol = 1e-11 * n2          # relative to |y|²; a point is reported only when it lands significantly on the wrong side
     for a, b in zip(obs["before"]["interior"], obs["after"]["interior"]):
-        if not b < 0:
+        if not b < tol:
             return {"expected": "interior stays interior", "observed": [a, b], "tags": dict(tags, type="interior")}
     for a, b in zip(obs["before"]["ideal"], obs["after"]["ideal"]):
-        if not abs(b) <= 1e-9 * n2:
-            return {"expected": "ideal stays ideal (|<y,y>|/|y|² ≤ 1e-9·|M|²)", "observed": [a, b], "tags": dict(tags, type="ideal")}
+        if not abs(b) <= 1e-9 + tol:
+            return {"expected": "ideal stays ideal (|<y,y>|/|y|² ≤ 1e-9 + 1e-11·amp)", "observed": [a, b], "tags": dict(tags, type="ideal")}
     for a, b in zip(obs["before"]["exterior"], obs["after"]["exterior"]):
-        if not b > 0:
+        if not b > -tol:
             return {"expected": "exterior stays exterior", "observed": [a, b], "tags": dict(tags, type="exterior")}
     if "pred" in obs and not all(obs["pred"].values()):
         return {"expected": "hyperbolic.timelike/lightlike/spacelike of the images", "observed": obs["pred"], "tags": dict(tags, type="predicates")}
@@ -637,23 +656,23 @@ def judge_h1(inp, obs, lr):
 CLAUSES = [
     Clause("ctor_corr", "corr", gen_ctor, run_ctor, judge_ctor, lean=lean_ctor,
            site="hyperbolic.Isometry.standard_rotation/elliptic/standard_loxodromic, sl2_iso, Subspace.reflection_across",
-           budget={"quick": 160, "thorough": 5000},
+           budget={"quick": 450, "thorough": 12000},
            what="each explicit constructor by value vs the Lean model over ℚ (rational (c,s), O(n,ℚ), u, SL±(2,ℚ) incl. composite shapes, rational normals and rational hyperplane data), dims 1-5"),
     Clause("word_corr", "corr", gen_word(6), run_word, judge_word, lean=lean_word2,
-           site="projective.Transformation.apply/inv/__matmul__", budget={"quick": 120, "thorough": 3000},
+           site="projective.Transformation.apply/inv/__matmul__", budget={"quick": 350, "thorough": 9000},
            what="l1 @ l2 @ ... @ lk with .inv() letters (k ≤ 6) by value vs Lean evalWord over ℚ (certified exact inverses)"),
     Clause("word_corr_long", "corr", gen_word(12), run_word, judge_word, lean=lean_word2,
-           site="projective.Transformation.apply/inv/__matmul__", budget={"quick": 15, "thorough": 1500},
+           site="projective.Transformation.apply/inv/__matmul__", budget={"quick": 40, "thorough": 3000},
            what="same, words up to length 12"),
     Clause("contract_corr", "corr", gen_contract, run_contract, judge_contract, lean=lean_contract,
            site="Point.origin_to, TangentVector.origin_to/isometry_to, timelike_to, spacelike_to, CoxeterGroup.hyperbolic_rep",
-           budget={"quick": 220, "thorough": 6000},
+           budget={"quick": 600, "thorough": 16000},
            what="‖M J Mᵀ − J‖∞ evaluated exactly in Lean on the float output; determinant sign with force_oriented; rows the algorithm determines by value; composite shapes; Coxeter groups of rank 3-5 with words ≤ 6"),
     Clause("iso_oracle", "oracle", gen_oracle(6, 2.0), run_oracle, judge_oracle,
-           site="every Isometry constructor; Transformation.apply/inv", budget={"quick": 350, "thorough": 12000},
+           site="every Isometry constructor; Transformation.apply/inv", budget={"quick": 1200, "thorough": 40000},
            what="float parameters: form residual of every constructor and of random words with inverses; distance invariance on point pairs; interior/ideal/exterior preserved (composite point shapes)"),
     Clause("iso_oracle_far", "oracle", gen_oracle(3, 4.0), run_oracle, judge_oracle,
-           site="every Isometry constructor; Transformation.apply/inv", budget={"quick": 100, "thorough": 4000},
+           site="every Isometry constructor; Transformation.apply/inv", budget={"quick": 300, "thorough": 12000},
            what="same with translation lengths up to 4"),
     Clause("h1_reflection_oracle", "oracle", gen_h1, run_h1, judge_h1, site="hyperbolic.Hyperplane (dimension 1)",
            budget={"quick": 5, "thorough": 20},
